@@ -42,7 +42,7 @@ def _jobs(tier):
                        "_obligation": "O1+O2", "unwind": 40})
     # order served by the index
     for order in (1, 2):
-        for op0 in (-1, 2, 5):
+        for op0 in (-1, 2, 5, 6, 0):
             js.append({"id": f"O3.order{order}.int.op{op0}", "func": "VerifH_C07_Index",
                        "conf": {"k0": 0, "k1": -1, "unique": 0, "op0": op0, "op1": -1, "docs": 3 if tier == "thorough" else 2, "order": order, "cnull": 0},
                        "_obligation": "O3", "unwind": 40})
